@@ -1,11 +1,11 @@
 """composeinfo documents: build through the API, dump, load, describe, dump again vs Model/ComposeInfo.v"""
 import copy
 import json
-from suites.common import exc_result, reflect, rstr, LOWER
+from suites.common import api_consistency, exc_result, reflect, rstr, LOWER
 from suites.ops_images import valid_compose
 
 EXC = (ValueError, TypeError, AttributeError, KeyError, IndexError)
-ARCHES = ["x86_64", "ppc64le", "aarch64", "s390x"]
+ARCHES = ["x86_64", "ppc64le", "aarch64", "s390x", "armhfp", "i386"]
 FRESH_REL = {"name": None, "version": None, "short": None, "type": None, "is_layered": True, "internal": False}
 FRESH_BP = {"name": None, "version": None, "short": None, "type": None}
 
@@ -143,6 +143,9 @@ def impl_roundtrip(case):
         text = ci.dumps()
     except EXC as e:
         return exc_result(e)
+    api = api_consistency(ci, CI.ComposeInfo, text)
+    if api:
+        return ["api-inconsistent", api]
     ci2 = CI.ComposeInfo()
     try:
         ci2.loads(text)
